@@ -46,7 +46,8 @@ PROPS = {
                    "RegretBound::regret_bound is the IEEE max of the two per-player bounds (loop-free Kani over all f64 pairs = proof).",
         level_note="The inequality bound >= true regret is Zinkevich et al. 2007 (trusted mathematics, not mechanised). The per-player "
                    "sum over infosets inside the solver loops is abstracted (R6) in the C09 slices. Counterfactual weighting: see C08.",
-        verus=[U("c08_advance_order", ["C02.V.advance.reports_bound"]),
+        verus=[U("c02_cum_regret", ["C02.V.cum_regret.formula", "C02.V.cum_regret.nonneg"]),
+               U("c08_advance_order", ["C02.V.advance.reports_bound"]),
                U("c08_recurse_player", ["C08.V.recurse_player.update (counterfactual weight: opponent reach x chance reach, sign for player two)"]),
                U("c08_recurse_single_player_arm", ["C08.V.recurse_single.player_arm (regret_a += weight x u_a - expected counterfactual value; average strategy += own reach x strategy)"]),
                U("c08_recurse_multi_player_arm", ["C08.V.recurse_multi.player_arm"]),
@@ -68,7 +69,8 @@ PROPS = {
         level_note="Leaf totality only: absence of panics in the tree recursion, hangs, deadlock and lock poisoning are not decided; "
                    "Game::solve's dispatch is proved against stand-ins for NonZeroUsize / available_parallelism and uninterpreted solvers. exp is a "
                    "sound interval model in the softmax harness.",
-        verus=[U("c05_avg_strat", ["C05.V.avg_strat.sums_to_one", "C05.V.avg_strat.normalised", "C05.V.avg_strat.uniform_when_empty"]),
+        verus=[U("c02_cum_regret", ["C02.V.cum_regret.nonneg (each per-infoset bound is a non-negative number)"]),
+               U("c05_avg_strat", ["C05.V.avg_strat.sums_to_one", "C05.V.avg_strat.normalised", "C05.V.avg_strat.uniform_when_empty"]),
                U("c05_into_avg_strat", ["C05.V.into_avg_strat.normalised"]),
                U("c08_regret_match", ["C08.V.regret_match.positive (current strategy: non-negative entries summing to one, any number of actions)", "C08.V.regret_match.fallback_argmax", "C08.V.regret_match.fallback_uniform", "C08.V.regret_match.fallback_argmin"]),
                U("c08_discount", ["C08.V.gen_discount.value (the discount factor is t^a/(t^a+1): a number, never NaN)"]),
@@ -169,6 +171,7 @@ PROPS = {
                    "facts `x < NaN` is false and bounds >= 0 (the cum_regret harnesses, bounded to <= 2 regrets per infoset in the quick tier).",
         kani_functions=["src/solve/data.rs :: impl RegretParams / fn cum_regret"],
         verus=[
+            U("c02_cum_regret", ["C02.V.cum_regret.nonneg (every per-infoset bound the loops sum is >= 0: a zero or negative threshold is never undercut; any number of actions)"]),
             U("c09_generic_single", ["C09.V.first_below"]),
             U("c09_generic_multi", ["C09.V.first_below"]),
             U("c09_external_single", ["C09.V.first_below"]),
